@@ -138,8 +138,9 @@ func runWalletTyped(dir string, w *walletCase, steps []typedStep, extra ...strin
 // is finished (refused session, or a failure has been recorded).
 //
 // Ask: 1 = `-l`, password typed twice, answer y   2 = `-l -1`, typed once, answer y
-//      3 = `-l`, typed twice, answer n            4 = `-xprv` (type 4), typed twice, answer y; `-l` then reads the file
-//      5 = `-l -p`: typed twice, never offered to save
+//
+//	3 = `-l`, typed twice, answer n            4 = `-xprv` (type 4), typed twice, answer y; `-l` then reads the file
+//	5 = `-l -p`: typed twice, never offered to save
 func typedPhase(o *vlib.Oracle, c *rec, cs Case, dir string, cfgRefused bool) (lst walRun, ok bool) {
 	w := cs.W
 	p := unhx(w.File)
